@@ -1810,7 +1810,8 @@ class sptensor:
             return self.copy()
         idx = np.where(shapeArray > 1)[0]
         if idx.size == 0:
-            return self.vals.item()
+            # all modes are singletons: the single entry, 0 when nothing is stored
+            return self.vals.item() if self.vals.size > 0 else 0.0
         siz = tuple(shapeArray[idx])
         if self.vals.size == 0:
             return ttb.sptensor(np.array([]), np.array([]), siz, copy=False)
